@@ -14,11 +14,11 @@
 
 import ast
 
-from .absint import FALSE, NONE, TOP, TRUE, Undecided, exc, own_names, val
+from .absint import FALSE, NONE, TOP, TRUE, Undecided, exc, own_names, unbox_deep, val
 from .astutil import FUNC_TYPES, attr_chain, dotted
 from .effects import EffectDomain, exc_info_of, is_generator
 
-CALLABLE_TAGS = ("func", "method", "boundmethod", "bound", "partial", "builtin", "listappend", "attrgetter", "itemgetter", "methodcaller", "classref", "ctorref")
+CALLABLE_TAGS = ("func", "method", "boundmethod", "bound", "partial", "builtin", "listappend", "attrgetter", "itemgetter", "methodcaller", "classref", "ctorref", "userfn")
 
 
 def is_inst(v):
@@ -32,7 +32,9 @@ def is_exitstack(v):
 class ObjectDomain(EffectDomain):
     list_outparams = True
     enter_returns_self = True
-    IDENTITY_TAGS = EffectDomain.IDENTITY_TAGS + ("inst", "classref", "ctorref", "excclass", "func", "method", "boundmethod")
+    closure_cells = True   # closures share their free variables with the defining frame through cells that outlive it
+    heap = True            # a list / dict that gets a second owner becomes a heap object: both owners see every change
+    IDENTITY_TAGS = EffectDomain.IDENTITY_TAGS + ("inst", "classref", "ctorref", "excclass", "func", "method", "boundmethod", "userfn")
 
     # -- values ---------------------------------------------------------------------------------
     def truth(self, value):
@@ -444,6 +446,10 @@ class ObjectDomain(EffectDomain):
         """Call the abstract callable ``fn`` with abstract arguments -> list of Result."""
         pos, kw = list(pos), list(kw)
         tag = fn[0] if isinstance(fn, tuple) and fn else None
+        if tag not in ("func", "boundmethod", "classref", "partial", "method", "inst"):
+            # not a callable of the repository whose body will run: it receives (and the log records) what the lists / dicts hold now
+            pos = [unbox_deep(v, st) for v in pos]
+            kw = [(k, unbox_deep(v, st)) for k, v in kw]
         if tag == "builtin" and len(pos) <= 1:
             if fn[1] == "bool" and pos:
                 return [val({"T": TRUE, "F": FALSE}.get(self.truth(pos[0]), ("bool",)), st)]
@@ -668,7 +674,8 @@ class ObjectDomain(EffectDomain):
         """Evaluate the arguments of ``call`` -> list of (Result-or-None, pos, kw, state)."""
         exprs = [a.value if isinstance(a, ast.Starred) else a for a in call.args] + [k.value for k in call.keywords]
         out = []
-        for r in interp.eval_list(exprs, st, fr):
+        share = [not isinstance(a, ast.Starred) for a in call.args] + [k.arg is not None for k in call.keywords]
+        for r in interp.eval_list(exprs, st, fr, share=share):
             if r.kind == "exc":
                 out.append((r, None, None, None))
                 continue
@@ -699,6 +706,27 @@ class ObjectDomain(EffectDomain):
         d = dotted(call.func) or ""
         f_ = call.func
         handled_elsewhere = self.track(d) or d in self.results or d in self.raises or d in self.ctors
+        # setattr(x, "name", v) / getattr(x, "name") with a constant name are the attribute store / load
+        if d in ("setattr", "getattr") and not call.keywords and len(call.args) == (3 if d == "setattr" else 2) \
+                and isinstance(call.args[0], (ast.Name, ast.Attribute)) and attr_chain(call.args[0]):
+            out = []
+            decided = d == "setattr" or attr_chain(call.args[0])[0] == fr.selfname or any(
+                r0.kind == "val" and is_inst(r0.value) for r0 in interp.eval(call.args[0], st, fr))
+            for r in (interp.eval_list(list(call.args[1:]), st, fr) if decided else ()):
+                if r.kind == "exc":
+                    out.append(r)
+                    continue
+                name = r.value[0]
+                if not (isinstance(name, tuple) and name[:1] == ("const",) and isinstance(name[1], str) and name[1].isidentifier()):
+                    decided = False
+                    break
+                node = ast.copy_location(ast.Attribute(value=call.args[0], attr=name[1], ctx=ast.Store() if d == "setattr" else ast.Load()), call)
+                if d == "setattr":
+                    out.append(val(NONE, interp.assign(node, r.value[1], r.state, fr)))
+                else:
+                    out.extend(interp.eval(node, r.state, fr))
+            if decided:
+                return out
         # functools.partial / operator helpers as values
         if d in ("partial", "functools.partial") and call.args and not any(isinstance(a, ast.Starred) for a in call.args) and all(k.arg is not None for k in call.keywords):
             out = []
